@@ -1204,7 +1204,8 @@ func corpus() []*History {
 	b12 := evB(12)
 	b12.Salt = 1
 	return []*History{
-		// stale cache: window 0 cached by a query, reverted into, refilled with different blocks
+		// regression input for /repo 5bb6f6f (stale cache): window 0 cached by a query, reverted into, refilled
+		// with different blocks; the last queries must now be exact on the long-lived instance
 		// (first: events in blocks W-1, W, W+1 and a sweep of all ranges around the boundary, once with the head
 		// exactly at W and once at W+2 - before any reorg, so the cache is fresh)
 		{Kind: "real", W: uint64(W), NewState: true, Ops: []Op{
